@@ -150,3 +150,45 @@ func VerifHarness_ParseRule() {
 	d := diags.Diagnostic{Pos: last.Pos, FirstColumn: 1, LastColumn: min(3, len(last.Value))}
 	verifAssert(d.LastColumn >= 0, "whole-rule diagnostic columns")
 }
+
+// ---------- parseNode: the YAML-inside-YAML heuristic of the relaxed walk ----------
+//
+// A mapping `data: <scalar>` under a document, the scalar on line `line` (job parameter, anywhere in the file incl. the
+// last line) with a value of vlen symbolic ASCII bytes (newlines included: the heuristic wants more than one), the file
+// being nlines lines of linelen symbolic bytes. yaml.Unmarshal of the inner text is environment: it either fails or
+// returns an (empty) document — a free bit, symbolically and natively. No run-time panic, and no rules are found.
+
+// verif:native-cut yaml_Unmarshal
+func verifStub_yaml_Unmarshal(in []byte, out interface{}) error {
+	if verifBool("innerok") {
+		verifReach("inner-yaml")
+		*(out.(*yaml.Node)) = yaml.Node{Kind: yaml.DocumentNode, Line: 1, Column: 1, Content: []*yaml.Node{{Kind: yaml.MappingNode, Tag: "!!map", Line: 1, Column: 1}}}
+		return nil
+	}
+	return errors.New("not yaml")
+}
+
+func VerifHarness_ParseNodeScalar() {
+	nlines, linelen, vlen, line := verifParam("nlines"), verifParam("linelen"), verifParam("vlen"), verifParam("line")
+	var lines []string
+	for i := 0; i < nlines; i++ {
+		l := verifBytes("l"+verifItoa(i), linelen)
+		for j := 0; j < linelen; j++ {
+			verifAssume(verifAnd(l[j] >= ' ', l[j] < 0x7f))
+		}
+		lines = append(lines, l)
+	}
+	val := verifBytes("val", vlen)
+	for j := 0; j < vlen; j++ {
+		verifAssume(verifAnd(verifOr(val[j] >= ' ', val[j] == '\n'), val[j] < 0x7f))
+	}
+	col := verifInt("col")
+	verifAssume(verifAnd(col >= 1, col <= linelen+1))
+	scalar := &yaml.Node{Kind: yaml.ScalarNode, Tag: "!!str", Value: val, Line: line, Column: col}
+	m := &yaml.Node{Kind: yaml.MappingNode, Tag: "!!map", Line: line, Column: 1, Content: []*yaml.Node{verifKeyNode(line, 1, "data"), scalar}}
+	doc := &yaml.Node{Kind: yaml.DocumentNode, Line: 1, Column: 1, Content: []*yaml.Node{m}}
+	p := Parser{isStrict: false, schema: PrometheusSchema}
+	groups := p.parseNode(doc, nil, nil, 0, 0, lines)
+	verifReach("end")
+	verifAssert(len(groups) == 0, "a scalar holds no rules")
+}
